@@ -167,7 +167,7 @@ func runProtocol(t *rapid.T, c runCfg) (dups, reorders int) {
 		net.SetShuffle(sc.shuffle)
 	}
 	net.SetInterceptor(dupInterceptor(sc, c.dupPct, nil))
-	res, oc := netsim.RunAll(net, runners, netsim.Options{Idle: hardBound(60*time.Second, 10*time.Second), Hard: hardBound(4*time.Minute, 40*time.Second)})
+	res, oc := netsim.RunAll(net, runners, netsim.Options{Idle: hardBound(60*time.Second, 5*time.Second), Hard: hardBound(2*time.Minute, 20*time.Second)})
 	if oc.HardStop {
 		hangSeen.Store(true)
 		t.Fatalf("did not terminate within the hard bound (%s)", what)
